@@ -54,6 +54,29 @@ pub fn normalise_ast(debug: &str) -> String {
             i += 1;
         }
     }
+    // 1b. FIELD keeps the name of each variable a second time as a string literal (`StringLiteral("Name")` right in
+    // front of the variable itself): that copy is an identifier, its letter case folds like the variable's
+    {
+        let head = "StringLiteral(\"";
+        let mid = "\"), pos: P }, Positioned { element: Variable(Name { bare_name: CaseInsensitiveString(\"";
+        let mut from = 0;
+        while let Some(k) = s[from..].find(head) {
+            let start = from + k + head.len();
+            let Some(len) = s[start..].find('"') else { break };
+            let payload = s[start..start + len].to_string();
+            let after = start + len;
+            if s[after..].starts_with(mid) {
+                let q_start = after + mid.len();
+                if let Some(q_len) = s[q_start..].find('"') {
+                    let q = &s[q_start..q_start + q_len];
+                    if q.eq_ignore_ascii_case(&payload) && payload.chars().all(|c| c.is_ascii_alphanumeric() || c == '.') {
+                        s.replace_range(start..start + len, &payload.to_ascii_uppercase());
+                    }
+                }
+            }
+            from = after;
+        }
+    }
     // 2. comments
     for head in ["Positioned { element: Statement(Comment(\"", "Positioned { element: Comment(\""] {
         loop {
